@@ -14,6 +14,8 @@
 //!   S=<hex>                                    symbol file bytes (may repeat)
 //!   I=<base>:<size>:<protection>               memory info entry
 //!   R=<addr>:<bytes>                           extra memory region
+//!   mem64=1                                    every memory region (thread stacks and R=) goes into a Memory64List
+//!                                              stream instead of the MemoryList stream (full-dump layout)
 //!   N=<tid>:<name hex>                         thread name
 //!   B=<dump thread id>:<requesting thread id>  breakpad info stream
 //!   maps= limits= status= lsb= cpuinfo= environ=   <hex> Linux text streams
@@ -282,19 +284,34 @@ fn synth(s: &Spec) -> Vec<u8> {
         .set_processor_architecture(arch_id(&s.cpu))
         .set_platform_id(os_id(&s.os));
     dump = dump.add_system_info(system_info);
+    let mem64 = s.extra.get("mem64").map(|v| v == "1").unwrap_or(false);
+    let add_mem = |d: SynthMinidump, m: Memory| if mem64 { d.add_memory64(m) } else { d.add_memory(m) };
     for t in &s.threads {
         let stack = Memory::with_section(Section::with_endian(e).append_bytes(&t.stack), t.stack_base);
         match &t.regs {
             Some(regs) => {
                 let ctx = Section::with_endian(e).append_bytes(&context_bytes(&s.cpu, regs));
-                let thread = Thread::new(e, t.id, &stack, &ctx);
-                dump = dump.add_thread(thread).add(ctx).add_memory(stack);
+                if mem64 {
+                    // full-dump layout: the thread's own descriptor is empty (data_size 0), the stack is found by address
+                    let cite = Memory::with_section(Section::with_endian(e), t.stack_base);
+                    let thread = Thread::new(e, t.id, &cite, &ctx);
+                    dump = dump.add_thread(thread).add(ctx).add(cite).add_memory64(stack);
+                } else {
+                    let thread = Thread::new(e, t.id, &stack, &ctx);
+                    dump = dump.add_thread(thread).add(ctx).add_memory(stack);
+                }
             }
             None => {
                 // a thread whose context location is empty
                 let ctx = Section::with_endian(e);
-                let thread = Thread::new(e, t.id, &stack, &ctx);
-                dump = dump.add_thread(thread).add(ctx).add_memory(stack);
+                if mem64 {
+                    let cite = Memory::with_section(Section::with_endian(e), t.stack_base);
+                    let thread = Thread::new(e, t.id, &cite, &ctx);
+                    dump = dump.add_thread(thread).add(ctx).add(cite).add_memory64(stack);
+                } else {
+                    let thread = Thread::new(e, t.id, &stack, &ctx);
+                    dump = dump.add_thread(thread).add(ctx).add_memory(stack);
+                }
             }
         }
     }
@@ -344,7 +361,7 @@ fn synth(s: &Spec) -> Vec<u8> {
         dump = dump.add_memory_info(MemoryInfo::new(e, b, b, p, sz, 0x1000, p, 0x20000));
     }
     for (a, b) in &s.regions {
-        dump = dump.add_memory(Memory::with_section(Section::with_endian(e).append_bytes(b), *a));
+        dump = add_mem(dump, Memory::with_section(Section::with_endian(e).append_bytes(b), *a));
     }
     for (tid, n) in &s.names {
         let name = DumpString::new(n, e);
